@@ -154,11 +154,15 @@ class Regex(RegexReader):
         >>> regex.to_epsilon_nfa()
 
         """
+        # The automaton used by accepts is kept apart from the one returned
+        previous_enfa = self._enfa
         self._initialize_enfa()
         s_initial = self._set_and_get_initial_state_in_enfa()
         s_final = self._set_and_get_final_state_in_enfa()
         self._process_to_enfa(s_initial, s_final)
-        return self._enfa
+        enfa = self._enfa
+        self._enfa = previous_enfa
+        return enfa
 
     def _set_and_get_final_state_in_enfa(self):
         s_final = self._get_next_state_enfa()
